@@ -728,6 +728,7 @@ type vxC17World struct {
 	nreq           map[int]int
 	held           []*vnode.ReqCtx
 	connectErrs    map[string]int
+	usedAt         map[int]time.Time // ServerConn.ID -> when its USE <keyspace> was answered (Keyspace cases)
 	dialStack      map[int]string // ServerConn.ID -> who dialled (driver frames)
 	viol           []string
 	maxPool        int
@@ -868,6 +869,13 @@ func (w *vxC17World) intercept(hi int) func(rc *vnode.ReqCtx) bool {
 			w.registered[id] = true
 			w.mu.Unlock()
 		case "QUERY":
+			if strings.HasPrefix(strings.ToUpper(rc.Req.Statement), "USE ") {
+				defer func() {
+					w.mu.Lock()
+					w.usedAt[id] = time.Now()
+					w.mu.Unlock()
+				}()
+			}
 			if strings.HasPrefix(rc.Req.Statement, "LIST hold") {
 				w.mu.Lock()
 				w.held = append(w.held, rc)
@@ -1260,7 +1268,7 @@ func vxC17Run(c *vxC17Case, k *vstats.Case) error {
 	}
 	cl := vnode.NewCluster(vxSpecs(c.Hosts, 2))
 	w := &vxC17World{c: c, cl: cl, dials: map[string]int{}, connIdx: map[int]int{}, conns: map[int]*vnode.ServerConn{},
-		dialStack: map[int]string{}, ready: map[int]bool{}, registered: map[int]bool{}, nreq: map[int]int{}, connectErrs: map[string]int{},
+		dialStack: map[int]string{}, ready: map[int]bool{}, registered: map[int]bool{}, nreq: map[int]int{}, connectErrs: map[string]int{}, usedAt: map[int]time.Time{},
 		faultOff: make([]int32, c.Hosts), relaxed: make([]int32, c.Hosts)}
 	for hi, n := range cl.Nodes() {
 		n.Intercept = w.intercept(hi)
@@ -1386,6 +1394,15 @@ func vxC17Run(c *vxC17Case, k *vstats.Case) error {
 				case "kill":
 					cs := w.nodeConns(hi, false)
 					for i := 0; i < len(cs) && i < a.N; i++ {
+						if c.Keyspace {
+							// a connection that dies before the driver has seen the answer to its USE is a
+							// failed connect (hostConnPool.connect returns the error): no promise of recovery then
+							w.mu.Lock()
+							if at, ok := w.usedAt[cs[i].ID]; !ok || time.Since(at) < 300*time.Millisecond {
+								w.connectErrs[vxC17IP(hi)]++
+							}
+							w.mu.Unlock()
+						}
 						cs[i].Close()
 					}
 				case "killctl":
@@ -1625,8 +1642,35 @@ func (w *vxC17World) settle(disturbed map[int]bool, killed bool, out *vxC17Outco
 		}
 		time.Sleep(time.Millisecond)
 	}
+	// the strict node-side bound is sampled again only once no pool is connecting or closing any more: a
+	// pool that was replaced may still have connects in flight (they are closed as soon as they complete,
+	// later with a keyspace to set); if that takes longer than the wait the hosts simply stay unsampled
+	wasRelaxed := false
 	for hi := range w.relaxed {
-		atomic.StoreInt32(&w.relaxed[hi], 0)
+		if atomic.LoadInt32(&w.relaxed[hi]) != 0 {
+			wasRelaxed = true
+		}
+	}
+	calm := !wasRelaxed
+	for dl2 := time.Now().Add(3 * time.Second); wasRelaxed && time.Now().Before(dl2); {
+		busy := false
+		for _, g := range vxGoroutines() {
+			if g.has(".(*hostConnPool).fill") || g.has(".(*hostConnPool).connect") || g.has(".(*hostConnPool).connectMany") ||
+				g.has(".(*hostConnPool).Close") || g.has(".(*Session).dial") || g.has(".(*Session).connect") || g.has(".(*Session).startPoolFill") {
+				busy = true
+				break
+			}
+		}
+		if !busy {
+			calm = true
+			break
+		}
+		time.Sleep(2 * time.Millisecond)
+	}
+	if calm {
+		for hi := range w.relaxed {
+			atomic.StoreInt32(&w.relaxed[hi], 0)
+		}
 	}
 	if !killed {
 		return nil
